@@ -315,6 +315,26 @@ fn c09_case(ctx: &Ctx, rep: &mut Report, rng: &mut Rng, version: Version, done: 
     if log.len() != exp.len() || log.iter().zip(exp.iter()).any(|(l, (v, _))| l.path != "/" && l.name != v.name) {
         return Err(("names in the bytes | differ from the model".to_string(), format!("parser: {:?}, model: {:?}", log.iter().map(|l| &l.name).collect::<Vec<_>>(), exp.iter().map(|e| &e.0.name).collect::<Vec<_>>())));
     }
+    // "stored verbatim and found again" also holds for the stored file: reopened in either
+    // mode it lists the same names, and every pool name is found (or not) as before
+    for mode in [crate::engine::Mode::Permissive, crate::engine::Mode::Strict] {
+        let (f2, _sh2) = crate::backend::MonFile::new(bytes.clone());
+        let mut cf2 = crate::engine::open_with(f2, mode, None).map_err(|e| ("reopened | open failed".to_string(), format!("{mode:?}: {e}")))?;
+        let obs = crate::engine::dump_live(&mut cf2).map_err(|w| ("reopened | dump failed".to_string(), format!("{mode:?}: {w}")))?;
+        crate::engine::dumps_match(&exp, &obs).map_err(|w| ("reopened | names or contents differ".to_string(), format!("{mode:?}: {w}")))?;
+        for parent in parents {
+            for name in &pool {
+                let p = child(parent, name);
+                let present = sess.model.get_path(&p).is_some();
+                let pv = child(parent, &gen::case_variant(rng, name));
+                let (a, b) = (cf2.exists(&p), cf2.exists(&pv));
+                if a != present || b != present {
+                    return Err(("reopened | findability".to_string(), format!("{mode:?}: {:?} present={present}: exists(exact)={a}, exists({:?})={b}", p, pv)));
+                }
+            }
+        }
+        rep.count("reopened_sweeps");
+    }
     Ok(())
 }
 
